@@ -64,7 +64,7 @@ func (propC12) NumCases(tier string) int {
 	return 500
 }
 func (propC12) Rule() string {
-	return "even cases: a 'mixed' program run on all 12 variants (quick: 2 sampled configurations each): MVP-1's count must equal the analytic model (fetch 309 + decode 1 + memory read 309 for loads + execute 50 for loads / 1 otherwise + write-back 1 register / 309 memory / 0 for branches, nop and ret), MVP-2 <= MVP-1, every count > 0 and >= ceil(executed / issue width) (1 for MVP-1..5, 2 for MVP-6+). odd cases: a program whose branches and addresses depend only on control registers (loop counters, address registers set by li), run twice per configuration with different values in the data registers and data memory; the reference confirms identical path and address trace, then the two counts must be equal. Non-trivial/distinct as in C01."
+	return "even cases: a 'mixed' program run on all 12 variants (quick: 2 sampled configurations each): MVP-1's count must equal the analytic model (fetch 309 + decode 1 + memory read 309 for loads + execute 50 for loads / 1 otherwise + write-back 1 register / 309 memory / 0 for branches, nop and ret), MVP-2 <= MVP-1 (every third such case uses misaligned loads and stores and runs on MVP-1/2 only), every count > 0 and >= ceil(executed / issue width) (1 for MVP-1..5, 2 for MVP-6+). odd cases: a program whose branches and addresses depend only on control registers (loop counters, address registers set by li), run twice per configuration with different values in the data registers and data memory; the reference confirms identical path and address trace, then the two counts must be equal. Non-trivial/distinct as in C01."
 }
 func (propC12) Assumptions() []string {
 	return []string{diffAssume, "an instruction with a destination operand pays the register write-back even when the destination is zero", "a run whose architectural result is wrong for a known reason still has its cycle count checked against the bounds"}
@@ -155,8 +155,26 @@ func (pp propC12) RunCase(tier string, seed int64, idx int) caseResult {
 	}
 	if idx%2 == 0 {
 		in := famMixed(r, idx)
+		unaligned := idx%6 == 4
+		if unaligned {
+			// the unpipelined variants access memory byte by byte: misaligned loads and stores are within
+			// what they run, and the latency table charges per instruction, not per word touched
+			in = genProgram(r, genCfg{N: 8 + r.Intn(30), Mem: true, Loops: true, Ret: true, MemSize: 1024, NData: 5, NAddr: 3, SubWord: true})
+			for _, a := range addrRegs {
+				in.Regs[regIdx(a)] += int32(r.Intn(4))
+			}
+			in.Src = strings.ReplaceAll(in.Src, "li s", "addi s") // keep the misalignment: li sX, v -> addi sX, v is rewritten below
+			in.Src = c12Unalign(in.Src, r)
+			var keep []config
+			for _, c := range cfgs {
+				if c.V == "mvp1" || c.V == "mvp2" {
+					keep = append(keep, c)
+				}
+			}
+			cfgs = keep
+		}
 		p := refParse(in.Src)
-		ref := refRun(p, in.Regs, in.Mem, 20000, true)
+		ref := refRunU(p, in.Regs, in.Mem, 20000, true, unaligned)
 		if ref.Err != "" || len(p.Ins) >= 250 {
 			res.Discarded = true
 			return res
@@ -292,3 +310,19 @@ func (pp propC12) Replay(f finding) (bool, string) {
 }
 
 func init() { register(propC12{}) }
+
+// c12Unalign rewrites "addi sX, v" (produced from "li sX, v") back into "li sX, v+k" with a random
+// misalignment k in 0..3, so that word and half-word accesses through sX are misaligned.
+func c12Unalign(src string, r *rand.Rand) string {
+	lines := strings.Split(src, "\n")
+	for i, l := range lines {
+		if strings.HasPrefix(l, "addi s") && strings.Count(l, ",") == 1 {
+			var reg string
+			var v int
+			if _, err := fmt.Sscanf(l, "addi %s %d", &reg, &v); err == nil {
+				lines[i] = fmt.Sprintf("li %s %d", reg, v+r.Intn(4))
+			}
+		}
+	}
+	return strings.Join(lines, "\n")
+}
